@@ -25,27 +25,29 @@ Definition dirty (cb fl value : list nat) : Prop :=
 Definition clean (cs : list acell) (value : list nat) (spl : nat) : Prop :=
   value = good cs spl /\ prefix_single cs spl /\ spl = fns cs.
 
+(* op.value is always exactly the entries of the first singletonPrefixLength positions, which are singleton
+   bins; the prefix is the whole singleton prefix unless the value has just lost (since commit a4bdb37 of
+   the code a cut-off sets singletonPrefixLength to the position where it lost, plus one) *)
 Definition vinv (cs : list acell) (value : list nat) (spl : nat) (cb fl : list nat) : Prop :=
-  exists junk, value = good cs spl ++ junk /\ prefix_single cs spl /\ junk_ok spl junk /\
-    ((junk = [] /\ spl = fns cs) \/ dirty cb fl value).
+  value = good cs spl /\ prefix_single cs spl /\ (spl = fns cs \/ dirty cb fl value).
 
 (* after undo: the partition is the node P on top of the stack *)
 Definition uinv (P : list acell) (value : list nat) (spl : nat) (cb fl : list nat) : Prop :=
-  spl = fns P /\ exists junk, value = good P spl ++ junk /\ junk_ok spl junk /\ (junk = [] \/ dirty cb fl value).
+  spl = fns P /\ value = good P spl.
+
+(* cut off: the value has lost *)
+Definition dform (cs : list acell) (value : list nat) (spl : nat) (cb fl : list nat) : Prop :=
+  value = good cs spl /\ prefix_single cs spl /\ dirty cb fl value.
 
 Lemma clean_vinv : forall cs value spl cb fl, clean cs value spl -> vinv cs value spl cb fl.
-Proof.
-  intros cs value spl cb fl (H1 & H2 & H3). exists []. rewrite app_nil_r. repeat split; try assumption; [constructor|].
-  left. split; [reflexivity|exact H3].
-Qed.
+Proof. intros cs value spl cb fl (H1 & H2 & H3). split; [exact H1|]. split; [exact H2|left; exact H3]. Qed.
 
 Lemma fns_prefix_single : forall cs, prefix_single cs (fns cs).
 Proof. intros cs k c Hk Hc. eapply fns_prefix; eassumption. Qed.
 
 Lemma uinv_vinv : forall P value spl cb fl, uinv P value spl cb fl -> vinv P value spl cb fl.
 Proof.
-  intros P value spl cb fl (H1 & junk & H2 & H3 & H4). exists junk. split; [exact H2|]. split; [rewrite H1; apply fns_prefix_single|].
-  split; [exact H3|]. destruct H4 as [H4|H4]; [left; split; assumption|right; exact H4].
+  intros P value spl cb fl (H1 & H2). split; [exact H2|]. split; [rewrite H1; apply fns_prefix_single|left; exact H1].
 Qed.
 
 (* ---------------------------------------------------------------- positions and bins *)
@@ -96,7 +98,8 @@ Lemma expand_loop_spec : forall cs cb fl, nonempty cs -> length (order_of cs) = 
   match expand_loop k g cs n m cb fl value j with
   | EvPanic => True
   | EvOk v s => clean cs v s /\ j <= s
-  | EvWorse v => exists junk, v = good cs j ++ junk /\ junk_ok j junk /\ dirty cb fl v
+  | EvWorse v s => exists j', j <= j' /\ j' < n /\ s = S j' /\ v = good cs (S j') /\ prefix_single cs (S j') /\
+                     S j' <= length cs /\ dirty cb fl v
   end.
 Proof.
   intros cs cb fl HN HO. induction k as [|k IH]; intros j value Hjk Hj HP Hv; simpl.
@@ -117,93 +120,48 @@ Proof.
       assert (Rec : match expand_loop k g cs n m cb fl (value ++ ent cs j) (S j) with
                     | EvPanic => True
                     | EvOk v s => clean cs v s /\ j <= s
-                    | EvWorse v => exists junk, v = good cs j ++ junk /\ junk_ok j junk /\ dirty cb fl v
+                    | EvWorse v s => exists j', j <= j' /\ j' < n /\ s = S j' /\ v = good cs (S j') /\ prefix_single cs (S j') /\
+                                       S j' <= length cs /\ dirty cb fl v
                     end).
       { specialize (IH (S j) (value ++ ent cs j) ltac:(lia) Hj' HP' Hv').
-        destruct (expand_loop k g cs n m cb fl (value ++ ent cs j) (S j)) as [|v|v s]; [exact I| |].
-        - destruct IH as (junk & E & HJ & HD). exists (ent cs j ++ junk). split; [rewrite E, good_S, app_assoc; reflexivity|].
-          split; [|exact HD]. apply Forall_app. split.
-          + apply Forall_forall. intros x Hx. apply ent_range in Hx. lia.
-          + eapply Forall_impl; [|exact HJ]. intros x Hx. simpl in Hx. pose proof (tri_mono j (S j) ltac:(lia)). lia.
+        destruct (expand_loop k g cs n m cb fl (value ++ ent cs j) (S j)) as [|v s0|v s]; [exact I| |].
+        - destruct IH as (j' & A & B & C & D & E & F & G0). exists j'.
+          split; [lia|]. split; [exact B|]. split; [exact C|]. split; [exact D|]. split; [exact E|]. split; [exact F|exact G0].
         - destruct IH as [IH1 IH2]. split; [exact IH1|lia]. }
+      assert (Here : forall (HD : dirty cb fl (value ++ ent cs j)),
+                exists j', j <= j' /\ j' < n /\ S j = S j' /\ value ++ ent cs j = good cs (S j') /\ prefix_single cs (S j') /\
+                  S j' <= length cs /\ dirty cb fl (value ++ ent cs j)).
+      { intros HD. exists j. split; [lia|]. split; [lia|]. split; [reflexivity|]. split; [exact Hv'|]. split; [exact HP'|]. split; [exact Hj'|exact HD]. }
       destruct cb as [|cb0 cbt]; [exact Rec|].
       destruct (m <? length (value ++ ent cs j)); [exact I|].
       destruct (cmp_list (value ++ ent cs j) (firstn (length (value ++ ent cs j)) (cb0 :: cbt))) eqn:EC; try exact Rec.
       destruct (cmp_list (value ++ ent cs j) (firstn (length (value ++ ent cs j)) fl)) eqn:EF; try exact Rec.
-      * exists (ent cs j). split; [rewrite Hv; reflexivity|]. split.
-        -- apply Forall_forall. intros x Hx. apply ent_range in Hx. lia.
-        -- split; [discriminate|]. split; [exact EC|]. rewrite EF. discriminate.
-      * exists (ent cs j). split; [rewrite Hv; reflexivity|]. split.
-        -- apply Forall_forall. intros x Hx. apply ent_range in Hx. lia.
-        -- split; [discriminate|]. split; [exact EC|]. rewrite EF. discriminate.
+      * apply Here. split; [discriminate|]. split; [exact EC|]. rewrite EF. discriminate.
+      * apply Here. split; [discriminate|]. split; [exact EC|]. rewrite EF. discriminate.
     + apply Nat.eqb_neq in E1. split; [|lia]. split; [exact Hv|]. split; [exact HP|].
       symmetry. eapply fns_char; eassumption.
 Qed.
 
 (* the exact form of the value at a cut-off: all the entries up to the position where it lost *)
 Lemma expand_loop_worse : forall cs cb fl, nonempty cs -> length (order_of cs) = n ->
-  forall k j value v, j + k = n -> j <= length cs -> prefix_single cs j -> value = good cs j ->
-  expand_loop k g cs n m cb fl value j = EvWorse v ->
-  exists j', j <= j' /\ j' < n /\ v = good cs (S j') /\ prefix_single cs (S j') /\ S j' <= length cs.
+  forall k j value v s, j + k = n -> j <= length cs -> prefix_single cs j -> value = good cs j ->
+  expand_loop k g cs n m cb fl value j = EvWorse v s ->
+  exists j', j <= j' /\ j' < n /\ v = good cs (S j') /\ prefix_single cs (S j') /\ S j' <= length cs /\ s = S j' /\ dirty cb fl v.
 Proof.
-  intros cs cb fl HN HO. induction k as [|k IH]; intros j value v Hjk Hj HP Hv H; simpl in H; [discriminate|].
-  destruct (nth_error cs j) as [c|] eqn:Ec; [|discriminate].
-  destruct (length (cverts c) =? 1) eqn:E1; [|discriminate].
-  apply Nat.eqb_eq in E1. destruct (proj2 (single_length c) E1) as [u Hu].
-  rewrite (order_nth_single j cs c u [] HP Ec Hu) in H.
-  assert (Eent : entries g cs n j u = ent cs j) by (unfold SearchValue.ent; rewrite Ec, Hu; reflexivity).
-  rewrite Eent in H.
-  assert (Hv' : value ++ ent cs j = good cs (S j)) by (rewrite good_S, Hv; reflexivity).
-  assert (HP' : prefix_single cs (S j)).
-  { intros k0 d Hk Hd. destruct (Nat.eq_dec k0 j) as [->|]; [rewrite Ec in Hd; inversion Hd; subst; exists u; exact Hu|].
-    apply (HP k0 d); [lia|exact Hd]. }
-  assert (Hj' : S j <= length cs) by (apply nth_error_Some; rewrite Ec; discriminate).
-  assert (Rec : expand_loop k g cs n m cb fl (value ++ ent cs j) (S j) = EvWorse v ->
-                exists j', j <= j' /\ j' < n /\ v = good cs (S j') /\ prefix_single cs (S j') /\ S j' <= length cs).
-  { intros HR. destruct (IH (S j) _ v ltac:(lia) Hj' HP' Hv' HR) as (j' & A & B & C & D & E).
-    exists j'. repeat split; try assumption; lia. }
-  assert (Here : exists j', j <= j' /\ j' < n /\ value ++ ent cs j = good cs (S j') /\ prefix_single cs (S j') /\ S j' <= length cs).
-  { exists j. repeat split; try assumption; lia. }
-  destruct cb as [|cb0 cbt]; [apply Rec; exact H|].
-  destruct (m <? length (value ++ ent cs j)); [discriminate|].
-  destruct (cmp_list (value ++ ent cs j) (firstn (length (value ++ ent cs j)) (cb0 :: cbt))); try (apply Rec; exact H).
-  destruct (cmp_list (value ++ ent cs j) (firstn (length (value ++ ent cs j)) fl)); try (apply Rec; exact H);
-    inversion H; subst v; exact Here.
-Qed.
-
-(* from a value that already lost: lost again *)
-Lemma expand_loop_dirty : forall cs cb fl k j value c,
-  nth_error cs j = Some c -> single c -> prefix_single cs j -> dirty cb fl value ->
-  match expand_loop (S k) g cs n m cb fl value j with
-  | EvPanic => True
-  | EvOk _ _ => False
-  | EvWorse v => v = value ++ ent cs j /\ dirty cb fl v
-  end.
-Proof.
-  intros cs cb fl k j value c Hc [u Hu] HP (HD1 & HD2 & HD3). simpl. rewrite Hc, Hu. simpl.
-  rewrite (order_nth_single j cs c u [] HP Hc Hu).
-  assert (Eent : entries g cs n j u = ent cs j) by (unfold SearchValue.ent; rewrite Hc, Hu; reflexivity).
-  rewrite Eent. destruct cb as [|cb0 cbt]; [congruence|].
-  destruct (m <? length (value ++ ent cs j)); [exact I|].
-  rewrite (cmp_app_lt _ _ _ HD2).
-  pose proof (cmp_app_ne _ (ent cs j) _ HD3) as HNE.
-  destruct (cmp_list (value ++ ent cs j) (firstn (length (value ++ ent cs j)) fl)) eqn:EF; [congruence| |].
-  - split; [reflexivity|]. split; [discriminate|]. split; [apply cmp_app_lt; exact HD2|rewrite EF; discriminate].
-  - split; [reflexivity|]. split; [discriminate|]. split; [apply cmp_app_lt; exact HD2|rewrite EF; discriminate].
+  intros cs cb fl HN HO k j value v s Hjk Hj HP Hv H.
+  pose proof (expand_loop_spec cs cb fl HN HO k j value Hjk Hj HP Hv) as HE. rewrite H in HE.
+  destruct HE as (j' & A & B & C & D & E & F & G0). exists j'.
+  split; [exact A|]. split; [exact B|]. split; [exact D|]. split; [exact E|]. split; [exact F|]. split; [exact C|exact G0].
 Qed.
 
 (* ---------------------------------------------------------------- the child of a node in progress *)
 
 (* b = index of the bin of the parent that was split *)
 Definition cinv (b : nat) (cs : list acell) (value : list nat) (spl : nat) (cb fl : list nat) : Prop :=
-  exists junk, value = good cs spl ++ junk /\ prefix_single cs spl /\ junk_ok spl junk /\ b <= spl /\
-    ((junk = [] /\ spl = fns cs /\ b < spl) \/ dirty cb fl value).
+  value = good cs spl /\ prefix_single cs spl /\ b < spl /\ (spl = fns cs \/ dirty cb fl value).
 
 Lemma cinv_vinv : forall b cs value spl cb fl, cinv b cs value spl cb fl -> vinv cs value spl cb fl.
-Proof.
-  intros b cs value spl cb fl (junk & H1 & H2 & H3 & H4 & H5). exists junk. repeat split; try assumption.
-  destruct H5 as [(A & B & _)|H5]; [left; split; assumption|right; exact H5].
-Qed.
+Proof. intros b cs value spl cb fl (H1 & H2 & H3 & H4). split; [exact H1|]. split; [exact H2|exact H4]. Qed.
 
 Lemma firstn_app_le : forall (A : Type) (l r : list A) k, k <= length l -> firstn k (l ++ r) = firstn k l.
 Proof. intros. rewrite firstn_app. replace (k - length l) with 0 by lia. simpl. apply app_nil_r. Qed.
@@ -231,7 +189,7 @@ Lemma split_bin_V : forall P age v s cb fl b c j a w ps',
   cinv (fns P) (p_cells ps') (p_value ps') (p_spl ps') cb fl /\
   (w = false -> clean (p_cells ps') (p_value ps') (p_spl ps') /\ fns P < p_spl ps').
 Proof.
-  intros P age v s cb fl b c j a w ps' (Hs & junk & Hv & HJ & HD) EP Hb H2 Hj HN HO HLoc HSp.
+  intros P age v s cb fl b c j a w ps' (Hs & Hv) EP Hb H2 Hj HN HO HLoc HSp.
   destruct (split_bin_spec _ _ _ _ _ _ _ _ _ _ _ _ _ HSp HLoc H2) as (x & Hx & Hcs & _ & HV).
   cbn [p_cells p_age] in *.
   assert (HN' : nonempty (p_cells ps')) by (eapply V_nonempty; eassumption).
@@ -251,31 +209,19 @@ Proof.
     { apply prefix_all. rewrite <- Hsb. intros k d Hk Hd. apply (fns_prefix P k d); [lia|]. rewrite EP, nth_error_app1 by lia. exact Hd. }
     rewrite (singles_order_length _ H). lia. }
   assert (Hsl : s <= length cs') by (apply Nat.lt_le_incl, nth_error_Some; rewrite Hcell; discriminate).
-  destruct HD as [->|HD].
-  - (* clean *)
-    rewrite app_nil_r in Hv.
-    pose proof (expand_loop_spec cs' cb fl ltac:(rewrite <- Hcs; exact HN') ltac:(rewrite <- Hcs; exact HO')
-                  (n - s) s v ltac:(lia) Hsl HPS ltac:(rewrite HG; exact Hv)) as HE.
-    unfold expand_value in HSp.
-    destruct (expand_loop (n - s) g cs' n m cb fl v s) as [|v'|v' s'] eqn:EE; [discriminate| |].
-    + inversion HSp; subst w ps'. cbn [p_cells p_value p_spl]. split; [|discriminate].
-      destruct HE as (junk' & E1 & E2 & E3). exists junk'. repeat split; try assumption; try lia. right. exact E3.
-    + inversion HSp; subst w ps'. cbn [p_cells p_value p_spl]. destruct HE as [(E1 & E2 & E3) E4].
-      assert (s < s').
-      { rewrite E3. unfold cs'. rewrite fns_app_singles.
-        - simpl. lia.
-        - apply prefix_all. rewrite <- Hsb. intros k d Hk Hd. apply (HPS k d Hk). unfold cs'. rewrite nth_error_app1 by lia. exact Hd. }
-      split; [|intros _; split; [repeat split; assumption|lia]].
-      exists []. rewrite app_nil_r. repeat split; try assumption; try lia; [constructor|]. left. repeat split; try assumption. lia.
-  - (* the value has already lost *)
-    destruct (n - s) as [|k] eqn:Ek; [lia|].
-    pose proof (expand_loop_dirty cs' cb fl k s v _ Hcell ltac:(exists x; reflexivity) HPS HD) as HE.
-    unfold expand_value in HSp. rewrite Ek in HSp.
-    destruct (expand_loop (S k) g cs' n m cb fl v s) as [|v'|v' s'] eqn:EE; [discriminate| |contradiction].
-    inversion HSp; subst w ps'. cbn [p_cells p_value p_spl]. destruct HE as [-> HD']. split; [|discriminate].
-    exists (junk ++ SearchValue.ent g n cs' s). split; [rewrite Hv, HG, app_assoc; reflexivity|]. split; [exact HPS|].
-    split; [|split; [lia|right; exact HD']].
-    apply Forall_app. split; [exact HJ|]. apply Forall_forall. intros y Hy. apply ent_range in Hy. lia.
+  pose proof (expand_loop_spec cs' cb fl ltac:(rewrite <- Hcs; exact HN') ltac:(rewrite <- Hcs; exact HO')
+                (n - s) s v ltac:(lia) Hsl HPS ltac:(rewrite HG; exact Hv)) as HE.
+  unfold expand_value in HSp.
+  destruct (expand_loop (n - s) g cs' n m cb fl v s) as [|v' s'|v' s'] eqn:EE; [discriminate| |].
+  - inversion HSp; subst w ps'. cbn [p_cells p_value p_spl]. split; [|discriminate].
+    destruct HE as (j' & A & B & C & D & E & F & G0). subst s'. split; [exact D|]. split; [exact E|]. split; [lia|right; exact G0].
+  - inversion HSp; subst w ps'. cbn [p_cells p_value p_spl]. destruct HE as [(E1 & E2 & E3) E4].
+    assert (s < s').
+    { rewrite E3. unfold cs'. rewrite fns_app_singles.
+      - simpl. lia.
+      - apply prefix_all. rewrite <- Hsb. intros k d Hk Hd. apply (HPS k d Hk). unfold cs'. rewrite nth_error_app1 by lia. exact Hd. }
+    split; [|intros _; split; [repeat split; assumption|lia]].
+    split; [exact E1|]. split; [exact E2|]. split; [lia|left; exact E3].
 Qed.
 
 (* ---------------------------------------------------------------- one round of the refinement *)
@@ -302,8 +248,7 @@ Lemma round_loop_V : forall cb fl w age pre_rev post value spl,
   match round_loop g n m cb fl w age pre_rev post value spl with
   | RrPanic => True
   | RrOk ps' => clean (p_cells ps') (p_value ps') (p_spl ps') /\ spl <= p_spl ps'
-  | RrWorse ps' => spl <= p_spl ps' /\ exists junk, p_value ps' = good (p_cells ps') (p_spl ps') ++ junk /\
-                     prefix_single (p_cells ps') (p_spl ps') /\ junk_ok (p_spl ps') junk /\ dirty cb fl (p_value ps')
+  | RrWorse ps' => spl < p_spl ps' /\ dform (p_cells ps') (p_value ps') (p_spl ps') cb fl
   end.
 Proof.
   intros cb fl w age. induction pre_rev as [|c pre IH]; intros post value spl HN HO HC; simpl.
@@ -333,9 +278,9 @@ Proof.
       pose proof (expand_loop_spec (rev pre ++ wa ++ post) cb fl HN' HO' (n - spl) spl value ltac:(lia) Hsl HP'
                     ltac:(rewrite HG; exact Hv)) as HE.
       unfold expand_value.
-      destruct (expand_loop (n - spl) g (rev pre ++ wa ++ post) n m cb fl value spl) as [|v'|v' s'] eqn:EE; [exact I| |].
-      * cbn [p_spl p_value p_cells]. split; [lia|]. destruct HE as (junk & E1 & E2 & E3).
-        exists junk. split; [exact E1|]. split; [exact HP'|]. split; [exact E2|exact E3].
+      destruct (expand_loop (n - spl) g (rev pre ++ wa ++ post) n m cb fl value spl) as [|v' s'|v' s'] eqn:EE; [exact I| |].
+      * cbn [p_spl p_value p_cells]. destruct HE as (j' & A & B & C & D & E & F & G0). subst s'. split; [lia|].
+        split; [exact D|]. split; [exact E|exact G0].
       * destruct HE as [HE1 HE2]. specialize (IH (wa ++ post) v' s' HN' HO' HE1).
         destruct (round_loop g n m cb fl w age pre (wa ++ post) v' s') as [|ps1|ps1]; [exact I| |].
         -- destruct IH as (I1 & I2). split; [lia|exact I2].
@@ -348,9 +293,6 @@ Proof.
 Qed.
 
 (* ---------------------------------------------------------------- the whole refinement *)
-
-Definition dform (cs : list acell) (value : list nat) (spl : nat) (cb fl : list nat) : Prop :=
-  exists junk, value = good cs spl ++ junk /\ prefix_single cs spl /\ junk_ok spl junk /\ dirty cb fl value.
 
 Lemma pick_a_same : forall P P' w, pick_a P = Some (P', w) -> Forall2 same_cell P P'.
 Proof.
@@ -405,7 +347,7 @@ Proof.
     rewrite rev_involutive, app_nil_r in HR.
     specialize (HR (same_nonempty _ _ HS HN) ltac:(rewrite <- (same_order _ _ HS); exact HO) (clean_same _ _ _ _ HS HC)).
     destruct (round_loop g n m cb fl w0 (p_age ps) (rev P') [] (p_value ps) (p_spl ps)) as [|ps1|ps1] eqn:ER; [discriminate| |].
-    + inversion H; subst. destruct HR as [HR1 HR2]. split; [exact HR1|exact HR2].
+    + inversion H; subst. destruct HR as [HR1 HR2]. split; [lia|exact HR2].
     + destruct HR as [HR1 HR2].
       destruct (round_loop_spec g n m cb fl w0 (p_age ps) (rev P') [] (p_value ps) (p_spl ps) false ps1)
         as (mid & HV & HCs & _); [rewrite ER; reflexivity|].
@@ -422,27 +364,20 @@ Lemma deage_V : forall b child P value spl cb fl, cinv b child value spl cb fl -
   Forall2 same_cell (firstn b P) (firstn b child) -> b = fns P ->
   uinv P (snd (deage_sv b spl value)) (fst (deage_sv b spl value)) cb fl.
 Proof.
-  intros b child P value spl cb fl (junk & Hv & HP & HJ & Hb & HD) HF Eb.
+  intros b child P value spl cb fl (Hv & HP & Hb & HD) HF Eb.
   pose proof (good_prefix g n b P child HF) as HG.
-  unfold deage_sv. destruct (b <? spl) eqn:E.
-  - apply Nat.ltb_lt in E. cbn [fst snd]. split; [exact Eb|]. exists []. rewrite app_nil_r.
-    split; [|split; [constructor|left; reflexivity]].
-    rewrite Hv, (good_split g n child b spl) by lia. rewrite <- app_assoc, HG.
-    apply strip_ge_app.
-    + apply Forall_forall. intros x Hx. eapply good_lt. exact Hx.
-    + apply Forall_app. split.
-      * apply Forall_forall. intros x Hx. eapply ents_ge. exact Hx.
-      * eapply Forall_impl; [|exact HJ]. intros x Hx. simpl in Hx. pose proof (tri_mono b spl ltac:(lia)). lia.
-  - apply Nat.ltb_ge in E. assert (b = spl) by lia. subst spl. cbn [fst snd]. split; [exact Eb|].
-    exists junk. split; [rewrite Hv, HG; reflexivity|]. split; [exact HJ|].
-    destruct HD as [(_ & _ & Hlt)|HD]; [lia|right; exact HD].
+  unfold deage_sv. pose proof Hb as E. apply Nat.ltb_lt in E. rewrite E. cbn [fst snd]. split; [exact Eb|].
+  rewrite Hv, (good_split g n child b spl) by lia. rewrite <- HG.
+  apply strip_ge_app.
+  - apply Forall_forall. intros x Hx. eapply good_lt. exact Hx.
+  - apply Forall_forall. intros x Hx. eapply ents_ge. exact Hx.
 Qed.
 
 (* ---------------------------------------------------------------- without a best leaf nothing is cut off *)
 
-Lemma expand_loop_nil : forall k cs fl value j v, expand_loop k g cs n m [] fl value j <> EvWorse v.
+Lemma expand_loop_nil : forall k cs fl value j v s, expand_loop k g cs n m [] fl value j <> EvWorse v s.
 Proof.
-  induction k as [|k IH]; intros cs fl value j v; simpl; [discriminate|].
+  induction k as [|k IH]; intros cs fl value j v s; simpl; [discriminate|].
   destruct (nth_error cs j); [|discriminate]. destruct (length (cverts a) =? 1); [|discriminate].
   destruct (nth_error (order_of cs) j); [|discriminate]. apply IH.
 Qed.
@@ -474,25 +409,16 @@ Qed.
 
 Lemma uinv_cinv : forall b P v s cb fl, uinv P v s cb fl -> b < fns P -> cinv b P v s cb fl.
 Proof.
-  intros b P v s cb fl (Hs & junk & Hv & HJ & HD) Hb. exists junk. split; [exact Hv|].
-  split; [rewrite Hs; apply fns_prefix_single|]. split; [exact HJ|]. split; [lia|].
-  destruct HD as [->|HD]; [left; repeat split; [exact Hs|lia]|right; exact HD].
+  intros b P v s cb fl (Hs & Hv) Hb. split; [exact Hv|]. split; [rewrite Hs; apply fns_prefix_single|]. split; [lia|left; exact Hs].
 Qed.
 
-Lemma dform_cinv : forall b cs v s cb fl, dform cs v s cb fl -> b <= s -> cinv b cs v s cb fl.
-Proof.
-  intros b cs v s cb fl (junk & H1 & H2 & H3 & H4) Hb. exists junk. repeat split; try assumption. right. exact H4.
-Qed.
+Lemma dform_cinv : forall b cs v s cb fl, dform cs v s cb fl -> b < s -> cinv b cs v s cb fl.
+Proof. intros b cs v s cb fl (H1 & H2 & H3) Hb. split; [exact H1|]. split; [exact H2|]. split; [exact Hb|right; exact H3]. Qed.
 
 Lemma clean_cinv : forall b cs v s cb fl, clean cs v s -> b < s -> cinv b cs v s cb fl.
-Proof.
-  intros b cs v s cb fl (H1 & H2 & H3) Hb. exists []. rewrite app_nil_r. repeat split; try assumption; [constructor|lia|].
-  left. repeat split; assumption.
-Qed.
+Proof. intros b cs v s cb fl (H1 & H2 & H3) Hb. split; [exact H1|]. split; [exact H2|]. split; [exact Hb|left; exact H3]. Qed.
 
 Lemma dform_vinv : forall cs v s cb fl, dform cs v s cb fl -> vinv cs v s cb fl.
-Proof.
-  intros cs v s cb fl (junk & H1 & H2 & H3 & H4). exists junk. repeat split; try assumption. right. exact H4.
-Qed.
+Proof. intros cs v s cb fl (H1 & H2 & H3). split; [exact H1|]. split; [exact H2|right; exact H3]. Qed.
 
 End Expand.
